@@ -362,54 +362,98 @@ canary('order direction sign flipped', Order, '__init__', 'np.copysign(1, self.q
 
 
 # ===================================================================================== _execute_order
+def _quote(c, W, dt, a):
+    if c.mode == 'sym':
+        t = lift(dt)
+        return SymNum(BIDF(t, liftk(a))), SymNum(ASKF(t, liftk(a)))
+    t = c.tterm(dt)
+    return (c.ceval(BIDF(t, c.keyterm(a)), lambda r: round(r.uniform(5, 200), 2)),
+            c.ceval(ASKF(t, c.keyterm(a)), lambda r: round(r.uniform(5, 200), 2)))
+
+
+def _fee(c, a, q, cons):
+    if c.mode == 'sym':
+        return SymNum(FEEF(liftk(a), lift(q), lift(cons)))
+    return c.ceval(FEEF(c.keyterm(a), z3.RealVal(repr(float(q))), z3.RealVal(repr(float(cons)))), lambda r: round(0.0015 * abs(cons), 6))
+
+
+def _an_order(c, W, name, assets):
+    """an arbitrary order satisfying the Order class invariant"""
+    if c.mode == 'sym':
+        o = c._const(name, O)
+        c.assume(order_inv(o))
+        return OrderRef(o)
+    a = assets[c._cval(name + '.asset_ix', lambda r: r.randint(0, len(assets) - 1), int) % len(assets)]
+    q = c.real(name + '.qty', lambda r: float(r.choice([-70, -10, -1, 1, 15, 200])))
+    c.assume(q != 0)
+    return Order(c.time(name + '.created'), a, q)
+
+
 @harness('SimulatedBroker._execute_order', props=['C05', 'C04', 'C01', 'C02', 'C07'], layer='L2', functions=BR_FUNCS)
 def br_execute(c):
     """one fill: quote read once at (dt, asset); ask for a buy, bid for a sell; stamped with the broker clock; the
-       whole order quantity; commission = fee model on round(price x quantity); one transact_asset on that portfolio"""
-    W, b = world(c)
-    pid, w = c.key('pid'), c.key('w')
+       whole order quantity; commission = fee model on round(price x quantity); one transact_asset on that portfolio.
+       (an EARLIER execution in the same update - any asset, any side - must not influence this one)"""
+    pid, w, a, a2 = c.key('pid'), c.key('w'), c.key('a'), c.key('a2')
     c.assume(NE(pid, w))
-    o = c._const('the_order', O)
-    c.assume(order_inv(o))
-    order = OrderRef(o)
+    W, b = world(c, [pid, w], [a, a2])
     dt = c.time('dt')
-    t, a = lift(dt), O_ASSET(o)
-    # precondition (C04/C05 quantifier): the portfolio exists, the asset has a quote at the fill time, positive prices,
-    # non-decreasing clocks (the raising paths are C15's)
-    c.assume(AND(W.exists(pid), z3.Not(BIDNAN(t, a)), z3.Not(ASKNAN(t, a)), BIDF(t, a) > 0, ASKF(t, a) > 0))
     now = b.current_dt
-    c.assume(AND(GE(now, SymNum(z3.Select(W.clock, liftk(pid)))),
-                 IMPLIES(W.cell('held', pid, SymKey(a)), GE(now, SymNum(W.cell('pclk', pid, SymKey(a)))))))
-    c.assume(FEEF(a, O_QTY(o), R0F(ASKF(t, a) * O_QTY(o))) >= 0)
-    c.assume(FEEF(a, O_QTY(o), R0F(BIDF(t, a) * O_QTY(o))) >= 0)
+    c.assume(B_(W.exists(pid)))
+    earlier = _an_order(c, W, 'earlier_order', [a, a2])
+    order = _an_order(c, W, 'the_order', [a, a2])
+    for od in (earlier, order):
+        bid, ask = _quote(c, W, dt, od.asset)
+        # precondition (C04/C05 quantifier): the asset has a quote at the fill time, positive prices, non-negative fees
+        if c.mode == 'sym':
+            t, x = lift(dt), liftk(od.asset)
+            c.assume(z3.And(z3.Not(BIDNAN(t, x)), z3.Not(ASKNAN(t, x))))
+        c.assume(AND(GT(bid, 0), GT(ask, 0)))
+    # non-decreasing clocks (the raising paths are C15's)
+    c.assume(GE(now, W.clock_(pid)))
+    for x in ((earlier.asset, order.asset) if c.mode == 'sym' else (a, a2)):
+        if c.mode == 'sym':
+            W.inst(liftk(pid), liftk(x))
+            c.assume(IMPLIES(W.held_(pid, x), GE(now, W.pclk_(pid, x))))
+        elif W.held_(pid, x):
+            c.assume(now >= W.pclk_(pid, x))
+    r0, _ = outcome(lambda: b._execute_order(dt, pid, earlier))
+    if r0 != 'ok':
+        c.ob('fills-under-the-precondition', False, props=['C04'])
+        return
+    pre = W.snapshot()
+    nf, nq, nfee = len(W.fills), len(W.queries), len(W.fee_calls)
     r, _ = outcome(lambda: b._execute_order(dt, pid, order))
     c.ob('fills-under-the-precondition', r == 'ok', props=['C04'])
     if r != 'ok':
         return
-    buy = O_QTY(o) > 0
-    price = z3.If(buy, ASKF(t, a), BIDF(t, a))
-    c.ob('quote-read-at-the-given-time-for-the-order-asset',
-         AND(len(W.queries) >= 1, *[AND(q[1] == t, q[2] == a) for q in W.queries]), props=['C05', 'C07'])
-    ok = len(W.fills) == 1
+    oa, oq = order.asset, order.quantity
+    bid, ask = _quote(c, W, dt, oa)
+    price = ITE(GT(oq, 0), ask, bid)
+    qs = W.queries[nq:]
+    c.ob('quote-read-at-the-given-time-for-the-order-asset', AND(len(qs) >= 1, *[AND(EQ(q[1], dt), EQ(q[2], oa)) for q in qs]), props=['C05', 'C07'])
+    fl = W.fills[nf:]
+    ok = len(fl) == 1
     c.ob('exactly-one-fill', ok, props=['C04', 'C05'])
     if not ok:
         return
-    f = W.fills[0]
-    c.ob('fill-on-the-ordering-portfolio', f['p'] == liftk(pid), props=['C04', 'C01'])
-    c.ob('fill-asset-and-full-quantity', AND(f['asset'] == a, f['quantity'] == O_QTY(o)), props=['C04'])
-    c.ob('fill-stamped-with-broker-clock', f['dt'] == lift(now), props=['C05'])
-    c.ob('fill-priced-at-ask-for-buy-bid-for-sell', f['price'] == price, props=['C05'])
-    cons = R0F(price * O_QTY(o))
+    f = fl[0]
+    c.ob('fill-on-the-ordering-portfolio', EQ(f['p'] if isinstance(f['p'], str) else SymKey(f['p']), pid), props=['C04', 'C01'])
+    c.ob('fill-asset-and-full-quantity', AND(EQ(f['asset'] if isinstance(f['asset'], str) else SymKey(f['asset']), oa), EQ(f['quantity'], oq)), props=['C04'])
+    c.ob('fill-stamped-with-broker-clock', EQ(f['dt'], now), props=['C05'])
+    c.ob('fill-priced-at-ask-for-buy-bid-for-sell', EQ(f['price'], price), props=['C05'])
+    cons = ROUND0(price * oq)
+    fee = _fee(c, oa, oq, cons)
+    fc = W.fee_calls[nfee:]
     c.ob('commission-is-fee-model-on-rounded-consideration',
-         AND(len(W.fee_calls) == 1, *[AND(fc[0] == a, fc[1] == O_QTY(o), fc[2] == cons) for fc in W.fee_calls],
-             f['commission'] == FEEF(a, O_QTY(o), cons)), props=['C05'])
-    total = price * O_QTY(o) + FEEF(a, O_QTY(o), cons)
-    c.ob('cash-debited-by-price-times-quantity-plus-commission', lift(W.cash(pid)) == lift(W.cash(pid, W.pre)) - total, props=['C01', 'C05'])
-    c.ob('holding-increases-by-order-quantity', W.cell('qty', pid, SymKey(a)) == W.cell('qty', pid, SymKey(a), W.pre) + O_QTY(o), props=['C02', 'C04'])
-    c.ob('mark-is-fill-price', W.cell('price', pid, SymKey(a)) == price, props=['C02'])
+         AND(len(fc) == 1, *[AND(EQ(x[0] if isinstance(x[0], str) else SymKey(x[0]), oa), EQ(x[1], oq), EQ(x[2], cons)) for x in fc],
+             EQ(f['commission'], fee)), props=['C05'])
+    total = price * oq + fee
+    c.ob('cash-debited-by-price-times-quantity-plus-commission', EQ(W.cash(pid), W.cash(pid, pre) - total, 1e6), props=['C01', 'C05'])
+    c.ob('holding-increases-by-order-quantity', EQ(W.qty_(pid, oa), W.qty_(pid, oa, pre) + oq), props=['C02', 'C04'])
+    c.ob('mark-is-fill-price', IMPLIES(W.held_(pid, oa), EQ(W.price_(pid, oa), price)), props=['C02'])
     c.ob('master-other-portfolios-and-queues-untouched',
-         AND(W.master_same(W.pre), EQ(W.cash(w), W.cash(w, W.pre)), W.same(W.pre, ['pdom', 'qdom', 'Q']),
-             z3.Select(W.qty, liftk(w)) == z3.Select(W.pre['qty'], liftk(w))), props=['C01', 'C04'])
+         AND(W.all_same(pre, ('master', 'portfolios', 'pending')), W.portfolio_same(w, pre)), props=['C01', 'C04'])
 
 
 canary('bid and ask swapped', SimulatedBroker, '_execute_order', 'price = bid_ask[1]\n', 'price = bid_ask[0]\n')(br_execute)
@@ -719,7 +763,7 @@ class ExecLoop:
         _ob(c, 'open/each-batched-order-filled-exactly-once', ok, kind='P', props=['C04', 'C01'])
         if ok:
             f = new[0]
-            _ob(c, 'open/fill-is-on-the-owning-portfolio-in-full', z3.And(f['p'] == OWNER(o), f['asset'] == O_ASSET(o), f['quantity'] == O_QTY(o)), kind='P', props=['C04'])
+            _ob(c, 'open/fill-is-on-the-owning-portfolio-in-full', z3.And(f['p'] == OWNER(o), f['asset'] == O_ASSET(o), f['quantity'] == O_QTY(o)), kind='P', props=['C04', 'C01'])
             _ob(c, 'open/fill-stamped-and-quoted-at-dt', z3.And(f['dt'] == G.t, *[q[1] == G.t for q in W.queries[self.nq0:]]), kind='P', props=['C05', 'C07'])
             cost = f['price'] * f['quantity'] + f['commission']
             c.assume(FILLCOST(o) == cost)
@@ -790,7 +834,7 @@ def br_update(c):
     c.ob('open/all-queues-drained', IMPLIES(z3.Select(pre['pdom'], P0), W.pending(p0) == NOSEQ), props=['C04'])
     c.ob('open/other-ids-have-no-queue-effect', IMPLIES(z3.Not(z3.Select(pre['pdom'], P0)), W.pending(p0) == W.pending(p0, pre)), kind='A')
     c.ob('open/fills-of-a-portfolio-are-its-pending-orders-sells-first-in-submission-order',
-         IMPLIES(z3.Select(pre['pdom'], P0), PROJ(G.exec, P0) == SP(z3.Select(pre['Q'], P0))), props=['C04', 'C18'])
+         IMPLIES(z3.Select(pre['pdom'], P0), PROJ(G.exec, P0) == SP(z3.Select(pre['Q'], P0))), props=['C04', 'C18', 'C01'])
     i, j = c.fresh('wi', z3.IntSort()), c.fresh('wj', z3.IntSort())
     so = [x for x in [G] if True]
     c.ob('open/no-buy-executed-before-a-sell-in-one-update',
@@ -851,7 +895,7 @@ def br_update_conc(c):
     fills = [(f['p'], f['asset'], f['quantity']) for f in W.fills]
     c.ob('open/all-queues-drained', all(W.pending_empty(p) for p in pre['pf']), props=['C04'])
     c.ob('open/fills-of-a-portfolio-are-its-pending-orders-sells-first-in-submission-order',
-         all([(a, q) for (pp, a, q) in fills if pp == p] == _stable_partition(pend[p]) for p in pre['pf']), props=['C04', 'C18'])
+         all([(a, q) for (pp, a, q) in fills if pp == p] == _stable_partition(pend[p]) for p in pre['pf']), props=['C04', 'C18', 'C01'])
     qs = [q for (_, _, q) in fills]
     c.ob('open/no-buy-executed-before-a-sell-in-one-update', all(not (qs[i] > 0 and qs[j] < 0) for i in range(len(qs)) for j in range(i + 1, len(qs))), props=['C04'])
     c.ob('open/each-batched-order-filled-exactly-once', len(fills) == sum(len(v) for v in pend.values()), props=['C04', 'C01'])
